@@ -1,4 +1,5 @@
 import VlsModel.Model.Bolt3Bytes
+import VlsModel.Model.Bolt3Filter
 import VlsModel.Drv.Common
 /-
 Line-protocol driver for the structured BOLT-3 model (property C04).
@@ -16,6 +17,7 @@ ops
   content <commitNum> <feerate> <toCs> <toBc> {o|r}:<value>:<hash>:<cltv>:<ripemd160 hex>…
         → canonical transaction rendering | HTLC-tx fields | hex of `ser (canon c)` (or `panic`)
   resetup <field|same> <value>            → ok / refused (second setup of the ready channel: only the identical setup is accepted)
+  filter {<p|e>:<w|e>:<tag>}…             → ok (the rules of the node's policy filter; overrides <strict> of `setup`)
   restart                                 → ok (the channel is persisted and restored: identity on the setup)
   p2 <ok|err|panic>                       → accept / reject of phase 2 on the current content
   p1 <ok|err|panic> <mutation…>           → accept <csVal> <bcVal> / reject of phase 1 on the mutated canonical tx
@@ -245,6 +247,12 @@ def mutate (tx : CTx H) (ws : List (Option Script)) : List String → Option (CT
   | ["wsadd"] => some (tx, ws ++ [some (.unknown 1)])
   | _ => none
 
+def ruleTok? (t : String) : Option FRule :=
+  match t.splitOn ":" with
+  | [p, a, tag] =>
+    if (p == "p" || p == "e") && (a == "w" || a == "e") then some ⟨tag, p == "p", a == "w"⟩ else none
+  | _ => none
+
 def step (st : St) (toks : List String) : St × String :=
   match toks with
   | ["setup", t, ob, hd, cd, txid, vout, cv, obs, strict, _mode, _point, _via] =>
@@ -252,6 +260,12 @@ def step (st : St) (toks : List String) : St × String :=
     | some t, some ob, some hd, some cd, some txid, some vout, some cv, some obs, some strict =>
       ({ st with setup := ⟨t, ob, hd, cd, txid, vout, cv, obs⟩, strict := strict }, "ok")
     | _, _, _, _, _, _, _, _, _ => (st, "bad-op")
+  | "filter" :: rules =>
+    -- the rules of the node's policy filter, `<p|e>:<w|e>:<tag>` each (prefix/exact, warn/error): from here on
+    -- `mismatchIsError` is what `PolicyFilter::filter("policy-commitment")` says (model: `filterIsError`)
+    match rules.mapM ruleTok? with
+    | some rs => ({ st with strict := mismatchIsErrorOf rs }, "ok")
+    | none => (st, "bad-op")
   | "keys" :: k1 :: k2 :: k3 :: k4 :: k5 :: k6 :: k7 :: h1 :: h5 :: [] =>
     match [k1, k2, k3, k4, k5, k6, k7].mapM hex?, hex? h1, hex? h5 with
     | some ks, some h1, some h5 => ({ st with keyTab := [] :: ks, h160rev := beNat h1, h160pay := beNat h5 }, "ok")
